@@ -136,12 +136,12 @@ Definition comment_ok (c : case) (pfx : nid) (o : obs) : bool :=
   end.
 Definition select_ok (c : case) (sel : seldesc) (nrest : nat) (pfx : nid) (o : obs) : bool :=
   match positions (pfxb pfx) 0 (bug_ids c) with
-  | [] => match o with
-          | OSelFound i n => Nat.eqb n (S nrest) && match sel with SelBug j => Nat.eqb i j | _ => false end
+  | [] => match o with          (* no entity is addressed: only the stored selection may be answered *)
+          | OSelFound i _ => match sel with SelBug j => Nat.eqb i j | _ => false end
           | OMultiple _ | OFound _ | OFoundC _ _ _ => false
           | _ => true
           end
-  | [i] => match o with OSelFound j n => Nat.eqb i j && Nat.eqb n nrest | _ => false end
+  | [i] => match o with OSelFound j _ => Nat.eqb i j | _ => false end
   | m => match o with OMultiple l => set_eqb l m | _ => false end
   end.
 Definition obs_ok (c : case) (a : api) (pfx : nid) (o : obs) : bool :=
